@@ -483,8 +483,12 @@ func scnDidReg(ctx *check.JobCtx) {
 					other = acct // an address registering itself (the only accepted form), possibly for a second key DID
 				}
 				m := &didtypes.MsgUpdatePaymentAddress{Creator: acct.Addr.String(), AccountId: other.AccountID(), Did: kd.Did}
+				if r.Intn(3) == 0 {
+					// the same key DID written as a DID URL (fragment / query / path)
+					m.Did = kd.Did + []string{"#" + kd.Did[8:], "?x=1", "/p", "#"}[r.Intn(4)]
+				}
 				_, had := st.PayAddr[kd.Did]
-				cs := fmt.Sprintf("key/self=%v/already-set=%v/addr-linked=%v", acct == other, had, st.Kid[other.Addr.String()] != "")
+				cs := fmt.Sprintf("key/self=%v/already-set=%v/addr-linked=%v/url=%v", acct == other, had, st.Kid[other.Addr.String()] != "", m.Did != kd.Did)
 				w.Deliver("did-payaddr", acct, map[string]interface{}{"c17.case": cs}, m)
 			}
 		case 10, 11: // key rotation with unbinding
